@@ -8,7 +8,7 @@
 #include "/include/vcommon.h"
 
 string oid = "?";
-int from_input = 0;
+int in_force = 0;   // > 0 while a command() call of this object is running
 
 void create () { seteuid (getuid ()); }
 void set_oid (string s) { oid = s; "/c12/reg"->reg (s, this_object ()); }
@@ -46,7 +46,6 @@ void logon () {
 // buffered line about to be parsed: this is the turn-limited path
 mixed process_input (string s) {
   VL ("cmd " + oid + " " + enc (s));
-  from_input = 1;
   return 0;
 }
 
@@ -56,8 +55,7 @@ int do_cmd (string arg) {
   string text;
   if (!stringp (v)) v = "";
   text = v + (stringp (arg) && arg != "" ? " " + arg : "");
-  if (from_input) from_input = 0;
-  else VL ("ecmd " + oid + " " + enc (text));
+  if (in_force > 0) VL ("ecmd " + oid + " " + enc (text));
   run (enc (text));
   return 1;
 }
@@ -72,7 +70,7 @@ void got_line (string s) {
   run (enc (s));
 }
 
-void force (string text) { command (text); }
+void force (string text) { in_force++; command (text); in_force--; }
 
 void net_dead () { }
 
